@@ -11,6 +11,7 @@ that uses real `with UnitEnvironment(...)` blocks, real exceptions and real DIP 
   ["end"]                          the innermost scope ends normally
   ["raise", k]                     the body raises; the exception unwinds k>=1 scopes before it is caught
   ["interrupt", k]                 the same with a BaseException that is not an Exception
+  ["drop"]                         `del` of every variable that holds an environment object + gc.collect()
   ["dip", T, k]                    the body parses DIP text T (which defines units); a failing parse unwinds k scopes
   (end of history)                 every scope that is still open is unwound by an exception
 
@@ -22,7 +23,13 @@ Failing registrations include registrations *interrupted* by a non-Exception Bas
 KeyboardInterrupt, SystemExit) at step 1, 2, 3: while the units mapping is iterated, or while the k-th definition is
 read (after its conversion class was inserted).  The harness catches the injected exception outside.
 
-Four parts:
+Object lifetimes are part of the scope programs: a with-block temporary is released right after __exit__; an explicit
+environment is bound to one variable per nesting depth (`env = UnitEnvironment(..); ...; env.close()`), so the closed
+object lives until the variable is re-bound (after the next environment has registered), until ["drop"], or until the
+end of the history.  The cyclic collector is disabled and run at fixed points, caught exceptions lose their tracebacks:
+every release happens deterministically by reference counting.
+
+Parts:
   graph   state-pruned BFS of the whole state graph (state = canonical tables + stack of open scopes), nesting <= 3:
           every operation of the alphabet (all fault kinds, every unwinding distance) is applied in every state
           (quick: states of depth 3 only as three nested with-blocks, failing steps there unwind 0 or 3 scopes;
@@ -36,6 +43,14 @@ Four parts:
           scopes, and continued in a second parse on the returned environment; after a failed parse the text without
           its failing line must parse again (twice) and leave the tables untouched; and, for each of the six call
           sites, a second parse whose first unit scope is interrupted by a BaseException during registration
+  overlap explicit environments (2 and 3 symbol-disjoint sets) opened and closed in EVERY order, LIFO or not; intermediate
+          states are not judged, but once every environment is closed the tables must equal the snapshot taken before
+          the first one was opened
+  redef   the same symbols registered in three successive scopes with two different definitions (plain, prefixed,
+          Quantity-defined, with conversion class; every style / exit): inside each scope every spelling must MEAN its
+          own definition (factor to base units, dimension vector, prefixed -> plain conversion)
+  dipredef successive DIP texts defining [len] differently: expression / power / modification / logical results must
+          follow the definition of their own text
 """
 import copy
 import gc
@@ -61,8 +76,13 @@ ASSUMPTIONS = [
     "between the start and the end of a history a row object of the pristine tables is identified by its identity; "
     "its content is compared with a copy taken at start-up at the end of every history (an in-place edit of a "
     "pristine row that is reverted within the same history would be missed)",
-    "non-LIFO closing of explicit environments, closing twice, and leaving an explicit environment open are not "
-    "demanded by the statement and are not generated",
+    "non-LIFO closing of explicit environments: intermediate states are not judged, only the state after every "
+    "environment has been closed (overlap part); if a close() raises, the end state is not judged either; closing "
+    "twice and leaving an explicit environment open are not demanded and not generated",
+    "meanings (factor, dimensions) of custom spellings are checked only in cases that themselves contain both "
+    "definitions of the symbol (redef, dipredef); everywhere else each custom spelling has one meaning in the whole "
+    "alphabet - otherwise a defective look-up cache would make verdicts depend on the process history (not replayable)",
+    "CPython reference counting: an object is released when its last reference goes away",
     "DIP: success is demanded only for programs whose every line has its units/nodes defined before use; numerical "
     "expressions that do not mention a custom unit and failing !condition lines carry no demand on the outcome; "
     "nothing is demanded about *which* statements fail, only that the tables are restored when one does",
@@ -162,7 +182,7 @@ def _build(name):
     if name == "A":
         return {"Xa": _d()}
     if name == "AB":
-        return {"Xa": _d(), "Xb": _d(magnitude=5)}
+        return {"Xa": _d(), "Xb": _d()}
     if name == "BC":
         return {"Xb": _d(prefixes=["k", "M"]), "Xc": _d(prefixes=True)}
     if name == "CA":
@@ -174,7 +194,10 @@ def _build(name):
     if name == "TU":
         return {"Xj": _d(definition=c["CT1"]), "Xv": _d(), "Xw": _d(definition=c["CT2"])}
     if name == "LM":
-        return {"[mas]": _d()}
+        # the same meaning as the DIP line "$unit mas = 3 g": outside the redef / dipredef parts every custom spelling
+        # has ONE meaning in the whole alphabet, so that a (defective) look-up cache that survives a scope cannot make
+        # the verdict of a case depend on the cases executed before it in the same process
+        return {"[mas]": dict(magnitude=3.0, dimensions=[0, 1, 0, 0, 0, 0, 0, 0])}
     # ---- the same symbols with OTHER definitions (used by the redef part only)
     if name == "A2":
         return {"Xa": _d(magnitude=7, dimensions=list(_DIM2))}
@@ -646,7 +669,8 @@ class Run:
         fp = _snap()
         desc = tuple((s, st, tuple(getattr(e, "new_units", ())), tuple(t.__name__ for t in getattr(e, "new_types", ())))
                      for s, st, e in self.stack)
-        self.states.append(hash((_CANON[fp][1], desc)))
+        kept = tuple(sorted(d_ for d_, e in self.vars.items() if all(e is not x[2] for x in self.stack)))
+        self.states.append(hash((_CANON[fp][1], desc, kept)))    # kept: variables holding closed environment objects
         self.events.append(label)
 
     def ctx_tags(self, depth):
@@ -1615,10 +1639,12 @@ def finish(total, tier, seed):
     h = total.hist
     need = ["last:opened", "last:exit-normal", "last:unwound", "last:construction-failed", "last:dip-ok",
             "last:dip-err", "dip-top-ok", "dip-top-err", "dip-inLM-err", "dip-split-ok",
-            "last:construction-interrupted", "last:unwound-by-interrupt", "overlap-non-lifo-all-closed",
-            "overlap-lifo-all-closed", "dipredef-ok", "redef", "last:dropped-1"]
+            "last:construction-interrupted", "last:unwound-by-interrupt", "redef", "last:dropped-1"]
     need += ["dipint-%s-interrupted" % site for site in DIPINT]
     missing = [k for k in need if not h.get(k)]
+    # parts whose cases may all violate on a defective tree: they only have to have been executed
+    missing += [pre + "*" for pre in ("overlap-non-lifo-", "overlap-lifo-", "dipredef-")
+                if not any(k.startswith(pre) for k in h)]
     if missing:
         raise HarnessError("vacuous run: no case with outcome(s) %s" % missing)
     if not any(k.startswith("dip-expected-ok-observed-ok") for k in h):
@@ -1649,11 +1675,15 @@ MANIFEST = dict(
          "options, numerical solver, logical solver for !condition/bool/@case: unknown unit, malformed number, refused "
          "conversion) - at depth 0, inside unrelated and clashing Python scopes and continued in a second parse; after "
          "a failed parse the text without its failing line is parsed twice more; for each of the 6 DIP call sites a second "
-         "parse whose unit registration is interrupted by a BaseException. On every transition: tables equal "
+         "parse whose unit registration is interrupted by a BaseException; (overlap) 2-3 explicit environments opened "
+         "and closed in every order, judged once all are closed; (redef/dipredef) the same symbol registered in "
+         "successive scopes / DIP texts with different definitions, every plain and prefixed spelling checked for the "
+         "factor and dimension of its own definition; object lifetimes (re-binding, del + gc.collect at every later "
+         "point) are part of the programs. On every transition: tables equal "
          "the scope-entry snapshot at every exit / failed construction / parse, pristine at depth 0, custom units "
          "usable inside and unknown outside.",
     note="Trusted: mc/isolation.py canonical table form (plus identity of UNIT_TYPES classes), the static stack model "
-         "that says which registrations are expected to succeed. Non-LIFO closing, double close and environments left "
-         "open are not demanded. Deeper nesting / longer histories rely on the small-scope hypothesis.",
+         "that says which registrations are expected to succeed, CPython reference counting. Intermediate states of "
+         "non-LIFO closing, double close and environments left open are not demanded. Deeper nesting / longer histories rely on the small-scope hypothesis.",
     technique="explicit-state BFS over scope/fault histories on the real tables, invariant checked on every transition",
 )
